@@ -18,6 +18,7 @@ pub open spec fn sc(r: real) -> Sc { Sc { g: Ghost(r) } }
 pub broadcast proof fn sc_view(a: Sc) ensures #[trigger] sc(a@) == a {}
 pub open spec fn s_zero() -> Sc { sc(0real) }
 pub open spec fn s_one() -> Sc { sc(1real) }
+pub open spec fn s_lit(r: real) -> Sc { sc(r) }
 pub open spec fn s_add(a: Sc, b: Sc) -> Sc { sc(a@ + b@) }
 pub open spec fn s_sub(a: Sc, b: Sc) -> Sc { sc(a@ - b@) }
 pub open spec fn s_mul(a: Sc, b: Sc) -> Sc { sc(a@ * b@) }
